@@ -216,7 +216,7 @@ Section Reader.
 
   Definition read_sub_hdr (be is64 : bool) (version pgsz sub_hdr_blocks fidx max_pfn : N)
     : N * N * N :=
-    if version <? 1 then (0, 0, max_pfn)       (* pdmap stays zero-initialised *)
+    if version <? 1 then (0, KDUMP_PFN_MAX, max_pfn)   (* the defaults set by do_header (fix 36) *)
     else
       let sh := rd fidx pgsz (if is64 then 104 else 96) in
       let k := if is64 then SH64 else sub_hdr_kind_32 be version pgsz sub_hdr_blocks sh in
